@@ -44,7 +44,7 @@ AllDev == {"AppliedIndexNotWrittenWithData", "WalReplayIgnoresIndex", "WalReplay
            "WalClearedAfterReplayWithoutCheckpoint",
            "ScanRevisionReadAfterIteration", "AppliedUpdatedAfterData", "EmptyPrefixScanReturnsNothing",
            "SnapshotLabelBehindContent", "PlainPutKeepsTtl", "CasKeepsTtl", "TtlTablePersistedOnStopOnly",
-           "WalReplayWithoutLease", "ReloadDropsDueTtl", "CleanupKeepsWal"}
+           "WalReplayWithoutLease", "ReloadDropsDueTtl", "CleanupKeepsWal", "FileSnapshotTtlSectionUnreadable"}
 
 Max(a, b) == IF a >= b THEN a ELSE b
 Min(a, b) == IF a <= b THEN a ELSE b
@@ -346,7 +346,10 @@ Snap ==
 
 Install ==
   /\ snap.on /\ inst = "orig"
-  /\ kv' = snap.kv /\ applied' = snap.label /\ ttl' = LiveTtl(snap.ttl, clock)
+  \* File engine: the TTL section appended to snapshot.bin is consumed by the key/value parser of
+  \* apply_snapshot_from_file (no delimiter), so the lease table is never restored
+  /\ kv' = snap.kv /\ applied' = snap.label
+  /\ ttl' = IF eng = "file" /\ "FileSnapshotTtlSectionUnreadable" \in Dev THEN NoTtl ELSE LiveTtl(snap.ttl, clock)
   /\ disk' = IF eng = "rocks"
              THEN [data |-> snap.kv, meta |-> snap.meta, wal |-> <<>>,
                    ttl |-> LiveTtl(snap.ttl, clock)]
